@@ -211,6 +211,10 @@ func workerRun(t *testing.T) {
 	deadline := time.Now().Add(time.Duration(envInt("SIM_WALL_S", 3600)) * time.Second)
 	onlyEngine := os.Getenv("SIM_ENGINE")
 
+	if os.Getenv("SIM_TIER") == "thorough" {
+		scale = 3
+	}
+
 	names := propEngines[prop]
 	if len(names) == 0 {
 		t.Fatalf("no engines for property %q", prop)
